@@ -45,9 +45,29 @@ ViolatedKw(o) == LET sc == Doc.schemas[o.si]
                          ValidD(sc.defs, RestrictTo(d, KwKeys(k) \cup {k}), o.value, "request", sc.dia) = "F"}
 NoWitness(o) == LET sc == Doc.schemas[o.si] IN        \* no value of the bounded universe satisfies the declared schema
                 ~BodySat([defs |-> sc.defs, dia |-> sc.dia], [schema |-> sc.schema])
+(* which keywords of a declared parameter / body schema reject the observed value on their own: <<"kw", part, keyword>> *)
+KwOfParam(op, c, q) ==
+  LET sch == Deref(op.defs, q.schema)
+      val == ObjGet(c.parts[q.loc], q.name) IN
+  IF sch.sk # "schema" THEN {}
+  ELSE {k \in DOMAIN sch \ {"sk", "type", "nullable", "exclMin", "exclMax"} :
+          CoercedV(op.defs, val, RestrictTo(sch, KwKeys(k) \cup {k, "type", "nullable"}), "request") = "F"}
+       \cup (IF Has(sch, "type") /\ CoercedV(op.defs, val, RestrictTo(sch, {"type", "nullable"}), "request") = "F" THEN {"type"} ELSE {})
+KwOfBody(op, c) ==
+  UNION {LET sch == Deref(op.defs, op.bodies[j].schema) IN
+         IF sch.sk # "schema" THEN {}
+         ELSE {k \in DOMAIN sch \ {"sk", "nullable", "exclMin", "exclMax"} :
+                 ValidD(op.defs, RestrictTo(sch, KwKeys(k) \cup {k}), c.body, "request", op.dia) = "F"}
+         : j \in {j \in DOMAIN op.bodies : c.hasBody /\ op.bodies[j].media = c.media}}
+KwDetail(op, c, vs) ==
+  UNION {{<<"kw", op.params[j].loc, k>> : k \in KwOfParam(op, c, op.params[j])} :
+           j \in {j \in DOMAIN op.params : vs[op.params[j].loc] = "F" /\ c.parts[op.params[j].loc].t = "obj"
+                                             /\ ObjHas(c.parts[op.params[j].loc], op.params[j].name)}}
+  \cup {<<"kw", "body", k>> : k \in (IF vs["body"] = "F" THEN KwOfBody(op, c) ELSE {})}
 Detail(o, vs) ==
   CASE o.kind = "value" -> ViolatedKw(o) \cup (IF NoWitness(o) THEN {"no-witness"} ELSE {})
-    [] o.kind = "case" -> {<<p, vs[p], o.c.labels[p]>> : p \in {p \in Parts : Present(o.c, p) \/ o.c.labels[p] # "none"}}
+    [] o.kind = "case" -> {<<p, vs[p], o.c.labels[p]>> : p \in {p \in Parts : Present(o.c, p) \/ o.c.labels[p] # "none" \/ vs[p] = "F"}}
+                          \cup (IF o.prop = "C03" THEN {} ELSE KwDetail(Doc.ops[o.opi], o.c, vs))
     [] OTHER -> {}
 Definite(o, vs) ==
   CASE o.kind = "value" -> o.exempt \/ ValidOf(o) # "U"
